@@ -132,6 +132,21 @@ fn format_decimal(n: f64) -> String {
     }
 }
 
+/// ToInt32 (ECMAScript 7.1.6): truncate, wrap modulo 2^32, reinterpret as signed.
+pub fn to_int32(n: f64) -> i32 {
+    to_uint32(n) as i32
+}
+
+/// ToUint32 (ECMAScript 7.1.7): truncate and wrap modulo 2^32 (NaN and infinities give 0).
+pub fn to_uint32(n: f64) -> u32 {
+    if !n.is_finite() {
+        return 0;
+    }
+    // fmod is exact, so the remainder lies in (-2^32, 2^32) and fits an i64
+    let m = crate::prelude::math::trunc(n) % 4294967296.0;
+    (m as i64) as u32
+}
+
 /// Convert a JavaScript string to a number according to ECMAScript ToNumber.
 ///
 /// The string is first trimmed of leading and trailing whitespace.
